@@ -16,7 +16,10 @@ QUICK_SHARDS = 4
 MIN_NONTRIVIAL = 50
 FUZZ_RUNS = 160000     # thorough tier: atheris executions (all children)
 RULE = (
-    "Recipes of all four classes; ids from all ranges (negative, large); "
+    "Second source: graphs perceived from coordinates (templates of every "
+    "class, the repository's XYZ files and reaction triples), whose parities "
+    "and ids come out of numpy code. "
+        "Recipes of all four classes; ids from all ranges (negative, large); "
     "all six descriptor classes, all parities incl. None; lone-pair "
     "placeholders; every non-empty subset of {broken, formed, fleeting} for "
     "atom and bond changes; formed / broken / fleeting bonds; isolated "
@@ -71,7 +74,34 @@ def feature_labels(r):
     return labs
 
 
+def gen_geo(data: bytes):
+    """graphs as the coordinate perception hands them out (their parities
+    and ids come from numpy code)"""
+    from vp.props import c07
+    tp = S.Tape(data)
+    if tp.chance(60):
+        t = c07.gen_file(tp)
+        if t["kind"] == "triple":
+            return {"geo": t}
+    return {"geo": c07.gen_template(tp)}
+
+
+def check_geo(ctx, case):
+    from vp.props import c07
+    geos = c07.base_geometries(case["geo"])
+    if any(ge is not None and c07.margins(*ge) for ge in geos):
+        ctx.exclude("geometry-near-a-threshold")
+        return None
+    with guard("C15/from-coordinates/perceive"):
+        g = c07.perceive(geos, "C15")
+    cls = "SCRG" if len(geos) == 3 else "SMG"
+    _round_trip(ctx, case, cls, g, "from-coordinates/")
+    return g
+
+
 def check_case(ctx, case):
+    if "geo" in case:
+        return check_geo(ctx, case)
     ma = rc.require_valid(case["a"], strict=False)
     cls = ma.cls
     g = rc.build(case["a"])
@@ -103,7 +133,7 @@ def _round_trip(ctx, case, cls, g, stage=""):
         json.loads(text)
     except Exception as e:
         raise Violation(f"C15/{cls}/invalid-json", repr(e))
-    feats = set(feature_labels(case["a"]))
+    feats = set(feature_labels(case["a"])) if "a" in case else set()
     tag = ("placeholder" if "placeholder" in feats else "plain")
     with guard(f"C15/{cls}/deserialize/{tag}"):
         h = JSONHandler.json_deserialize(text)
@@ -139,3 +169,14 @@ def run(ctx):
 
     ctx.hyp("c15", S.mapped(1500, gen), check, ctx.scale(8000, 300000),
             shrinker=shrink)
+
+    def check_g(case):
+        g = check_geo(ctx, case)
+        if g is None:
+            return
+        kinds = sorted({type(d).__name__ for d in g.stereo.values()})
+        ctx.note(case, bool(kinds), ["source:coordinates"]
+                 + [f"perceived:{k}" for k in kinds])
+
+    ctx.hyp("c15-geo", S.mapped(800, gen_geo), check_g,
+            ctx.scale(600, 20000), ddmin=False)
